@@ -1301,6 +1301,8 @@ class HeapExec(DynExec):
 
     # ------------------------------------------------------------------ spec functions for contracts
     def spec_fn(self, name, args, kw, st):
+        if name == 'STACKID':
+            return super().spec_fn(name, args, kw, st)
         if name == 'FRESH':
             # the object was allocated by a constructor call executed in this activation (not a parameter's element,
             # not an attribute of a class or module, not a value returned by an unverified callee)
